@@ -81,16 +81,18 @@ def judge_xor(data, p, key, form, ctx, case):
     if not holders:
         report(f"xor:{form}:container-missing", f"the {form} expression next to -bxor {key} was not decoded to its payload")
         return
-    node = holders[0]
-    kids = [c for c in node.children if c.obfuscation.startswith("cipher.xor")]
-    if 1 <= key <= 255:
-        want = bytes(b ^ key for b in p)
-        if not kids:
-            report(f"xor:{form}:child-missing", f"-bxor {key} next to a {form} payload but no xor child")
-        elif kids[0].obfuscation != f"cipher.xor{key}" or bytes(kids[0].value) != want:
-            report(f"xor:{form}:child-wrong", f"xor child {kids[0].obfuscation!r} {bytes(kids[0].value)[:30]!r}, expected key {key} -> {want[:30]!r}")
-    elif kids:
-        report(f"xor:{form}:child-for-key-out-of-range", f"key {key} is not a single-byte key (or is 0) but an xor child {kids[0].obfuscation!r} was reported")
+    if len(holders) > 1:
+        ctx.count("xor_cases_two_conversions")
+    for node in holders:
+        kids = [c for c in node.children if c.obfuscation.startswith("cipher.xor")]
+        if 1 <= key <= 255:
+            want = bytes(b ^ key for b in p)
+            if not kids:
+                report(f"xor:{form}:child-missing", f"-bxor {key} next to a {form} payload but no xor child")
+            elif kids[0].obfuscation != f"cipher.xor{key}" or bytes(kids[0].value) != want:
+                report(f"xor:{form}:child-wrong", f"xor child {kids[0].obfuscation!r} {bytes(kids[0].value)[:30]!r}, expected key {key} -> {want[:30]!r}")
+        elif kids:
+            report(f"xor:{form}:child-for-key-out-of-range", f"key {key} is not a single-byte key (or is 0) but an xor child {kids[0].obfuscation!r} was reported")
     ctx.nontrivial(data)
 
 
